@@ -50,6 +50,11 @@ def bool_items(s, n, mode):
         return [~s.bool_var() for _ in range(n)]
     if mode == "and":
         return [s.bool_var() & s.bool_var() for _ in range(n)]
+    if mode in ("c0T", "c0F"):          # one Python constant (first item), the rest variables
+        return [mode == "c0T"] + [s.bool_var() for _ in range(n - 1)]
+    if mode.startswith("const:"):       # every item a Python constant: bit k of the number = item k
+        bits = int(mode[6:])
+        return [bool(bits >> k & 1) for k in range(n)]
     if mode.startswith("mixed"):      # "mixed", "mixed1".."mixed3": the pattern variable / True / expression / False, rotated
         off = int(mode[5:] or 0)
         out = []
